@@ -1327,6 +1327,8 @@ bool BW_MidiSequencer::processEvents(bool isSeek)
             m_loop.stackUp();
             LoopStackEntry &s = m_loop.getCurStack();
             s.startPosition = rowBeginPosition;
+            // Don't bake the caller's lateness at this moment into every later pass of the loop
+            s.startPosition.wait = 0.0;
             caughLoopStackStart--;
         }
         return true;
